@@ -87,6 +87,14 @@ func (x *extractor) extract(t Term, typ types.Type, depth int) *CV {
 		}
 		return &CV{Kind: "u256", Int: n.String()}
 	}
+	if isBigRat(typ) || isBigFloat(typ) || (isFloat(typ) && vc.mode == ModeMath) {
+		v := x.values([]string{t.S})[t.S]
+		if r, ok := parseReal(v); ok {
+			return &CV{Kind: "rat", Int: r.Num().String(), Str: r.Denom().String()}
+		}
+		x.err = fmt.Errorf("cannot parse real %q", v)
+		return &CV{Kind: "unsupported"}
+	}
 	if isBigInt(typ) {
 		v := x.values([]string{t.S})[t.S]
 		n, _, ok := parseNum(v)
@@ -241,9 +249,20 @@ func (g *testGen) lit(cv *CV, typ types.Type) string {
 		}
 		return g.typeStr(typ) + "{" + strings.Join(limbs, ", ") + "}"
 	}
+	if cv.Kind == "rat" && isBigRat(typ) {
+		g.imports["math/big"] = "big"
+		return fmt.Sprintf("func() big.Rat { n, _ := new(big.Int).SetString(%q, 10); d, _ := new(big.Int).SetString(%q, 10); return *new(big.Rat).SetFrac(n, d) }()", cv.Int, cv.Str)
+	}
+	if cv.Kind == "big" && isBigInt(typ) {
+		g.imports["math/big"] = "big"
+		return fmt.Sprintf("func() big.Int { n, _ := new(big.Int).SetString(%q, 10); return *n }()", cv.Int)
+	}
 	switch u := typ.Underlying().(type) {
 	case *types.Basic:
 		switch cv.Kind {
+		case "rat":
+			g.imports["math/big"] = "big"
+			return fmt.Sprintf("func() %s { n, _ := new(big.Int).SetString(%q, 10); d, _ := new(big.Int).SetString(%q, 10); f, _ := new(big.Rat).SetFrac(n, d).Float64(); return %s(f) }()", g.typeStr(typ), cv.Int, cv.Str, g.typeStr(typ))
 		case "bool":
 			return fmt.Sprintf("%s(%v)", g.typeStr(typ), cv.Bool)
 		case "string":
@@ -273,7 +292,7 @@ func (g *testGen) lit(cv *CV, typ types.Type) string {
 	case *types.Pointer:
 		if cv.Kind == "ptr" {
 			el := u.Elem()
-			if _, isStruct := el.Underlying().(*types.Struct); isStruct && !isU256(el) && !isBigInt(el) {
+			if _, isStruct := el.Underlying().(*types.Struct); isStruct && !isU256(el) && !isBigInt(el) && !isBigRat(el) {
 				return "&" + g.lit(cv.Ptr, el)
 			}
 			g.nvar++
@@ -328,6 +347,12 @@ func (g *testGen) zero(typ types.Type) string {
 func (g *testGen) dump(e string, typ types.Type, depth int) string {
 	if depth > maxReplayDepth {
 		return `vfCV{"k": "unsupported"}`
+	}
+	if isBigRat(typ) {
+		return fmt.Sprintf(`func() vfCV { x := %s; return vfCV{"k": "rat", "i": x.Num().String(), "s": x.Denom().String()} }()`, e)
+	}
+	if isBigInt(typ) {
+		return fmt.Sprintf(`func() vfCV { x := %s; return vfCV{"k": "big", "i": x.String()} }()`, e)
 	}
 	if isU256(typ) {
 		g.imports["math/big"] = "big"
@@ -411,6 +436,14 @@ func (vc *VC) genTestS2(fn *ssa.Function, inputs []*CV, freeVars []*CV) (string,
 	var body strings.Builder
 	body.WriteString("\tif d := os.Getenv(\"VERIF_SCRATCH\"); d != \"\" {\n\t\tos.Chdir(d)\n\t}\n")
 	body.WriteString(vc.replayPreamble(g))
+	for _, gi := range vc.globalInits {
+		lhs := gi.name
+		if gi.pkg != g.pkg {
+			g.imports[gi.pkg.Path()] = gi.pkg.Name()
+			lhs = gi.pkg.Name() + "." + gi.name
+		}
+		fmt.Fprintf(&body, "\t%s = %s\n", lhs, g.lit(gi.cv, gi.typ))
+	}
 	body.WriteString("\tdefer func() {\n\t\tif r := recover(); r != nil {\n\t\t\tfmt.Printf(\"VERIF-PANIC: %v\\n\", r)\n\t\t}\n\t}()\n")
 	var args []string
 	for i, p := range fn.Params {
@@ -550,6 +583,20 @@ func (b *binder) bind(cv *CV, typ types.Type, path string) Term {
 	if cv == nil || cv.Kind == "unsupported" {
 		return vc.declFresh("unk", s)
 	}
+	if cv.Kind == "rat" {
+		n, ok1 := new(big.Int).SetString(cv.Int, 10)
+		d, ok2 := new(big.Int).SetString(cv.Str, 10)
+		if ok1 && ok2 && d.Sign() != 0 {
+			return realLit(new(big.Rat).SetFrac(n, d))
+		}
+		return vc.declFresh("unk", s)
+	}
+	if cv.Kind == "big" {
+		if n, ok := new(big.Int).SetString(cv.Int, 10); ok {
+			return intLit(n)
+		}
+		return vc.declFresh("unk", s)
+	}
 	if isU256(typ) {
 		n, ok := new(big.Int).SetString(cv.Int, 10)
 		if !ok {
@@ -644,8 +691,9 @@ type errBinding struct {
 }
 
 // evalPostConcrete2 decides whether an ensures clause is violated by the observed pre/post object graphs.
-func (P *Prog) evalPostConcrete2(fn *ssa.Function, con *Contract, clauseSrc string, inputs, post, results []*CV, freeVars []*CV, flags map[string]bool, timeoutS int) (string, string) {
+func (P *Prog) evalPostConcrete2(fn *ssa.Function, con *Contract, clauseSrc string, inputs, post, results []*CV, freeVars []*CV, flags map[string]bool, globals []globalInit, timeoutS int) (string, string) {
 	vc := newVC(P, fn, modeOf(con))
+	var globalTerms [][2]string
 	for _, n := range strings.Split(con.Options["reveal"], ",") {
 		if n != "" {
 			vc.revealed[n] = true
@@ -669,9 +717,22 @@ func (P *Prog) evalPostConcrete2(fn *ssa.Function, con *Contract, clauseSrc stri
 			names[fv.Name()] = SVal{T: t, GoT: el}
 		}
 	}
+	// configuration globals as observed/initialised in the replay
+	for _, gi := range globals {
+		comp := "G:" + gi.pkg.Path() + "." + gi.name
+		t := bp.bind(gi.cv, gi.typ, "g:"+gi.name)
+		vc.registerComp(comp, vc.sortOf(gi.typ))
+		vc.registerComp("GC:"+strings.TrimPrefix(comp, "G:"), vc.sortOf(gi.typ))
+		vc.constEpoch.consts["GC:"+strings.TrimPrefix(comp, "G:")] = t
+		pre.heap.known[comp] = t
+		globalTerms = append(globalTerms, [2]string{comp, t.S})
+	}
 	// post state: same object identities, new contents
 	postSt := &State{reach: tTrue, heap: &Heap{known: map[string]Term{}, ep: vc.newEpoch()}, chk: map[string]bool{}, top: mk("2000000", sortRef)}
 	bq := &binder{vc: vc, st: postSt, nextRef: bp.nextRef + 100000, refs: bp.refs}
+	for _, gt := range globalTerms {
+		postSt.heap.known[gt[0]] = mk(gt[1], vc.compSort[gt[0]])
+	}
 	for i, p := range fn.Params {
 		if i < len(post) && isPointer(p.Type()) {
 			bq.bind(post[i], p.Type(), fmt.Sprintf("a%d", i))
@@ -774,4 +835,31 @@ func (vc *VC) boundTerms(t Term, typ types.Type, heap *Heap, depth int, out *[]T
 			}
 		}
 	}
+}
+
+// parseReal parses SMT real values: 1.5, (/ 3.0 2.0), (- 1.0), (- (/ 1 2)), 7
+func parseReal(s string) (*big.Rat, bool) {
+	s = strings.TrimSpace(s)
+	if strings.HasPrefix(s, "(") {
+		parts := splitSexp(s[1 : len(s)-1])
+		if len(parts) == 2 && parts[0] == "-" {
+			r, ok := parseReal(parts[1])
+			if !ok {
+				return nil, false
+			}
+			return r.Neg(r), true
+		}
+		if len(parts) == 3 && parts[0] == "/" {
+			a, ok1 := parseReal(parts[1])
+			b, ok2 := parseReal(parts[2])
+			if !ok1 || !ok2 || b.Sign() == 0 {
+				return nil, false
+			}
+			return a.Quo(a, b), true
+		}
+		return nil, false
+	}
+	s = strings.TrimSuffix(s, "?")
+	r, ok := new(big.Rat).SetString(s)
+	return r, ok
 }
